@@ -168,13 +168,37 @@ def run(chk: lib.Check):
             if pool is plends or pool is plparents:
                 refusal_pool.update(pool[:share])
         rng.shuffle(plan)
+        # every other reload works on a FRAGMENTED copy of the model (packages / components moved to files of their own): references into
+        # and out of the deleted subtree then cross file boundaries ("type path#id") and have to be found and purged all the same
+        frag_dirs: list = []
+        frag_cands = [e.get("id") for e in all_sem if len(e) >= 3 and e.get(graph.XSI_TYPE)
+                      and (e.get(graph.XSI_TYPE).endswith("Pkg") or e.get(graph.XSI_TYPE).endswith("Component"))]
+        n_loads = [0]
+
+        def load_model():
+            import capellambse
+            n_loads[0] += 1
+            if "resources" in spec0 or n_loads[0] % 2 == 1 or len(frag_cands) < 2:
+                return corpus.load(spec0)
+            import fragmenter, shutil, tempfile
+            td = pathlib.Path(tempfile.mkdtemp(prefix="c09frag-"))
+            frag_dirs.append(td)
+            src_ = pathlib.Path(spec0["path"]).parent
+            shutil.copytree(src_, td / "m", ignore=shutil.ignore_patterns("*.license"))
+            capella_ = next(p_.name for p_ in src_.glob("*.capella"))
+            chosen_ = sorted(rng.sample(frag_cands, min(4, len(frag_cands))), key=lambda u: len(list(byid[u].iterancestors())))
+            picks_ = [(u, ("fragments/" if i_ % 2 else "") + f"F{i_}.capellafragment") for i_, u in enumerate(chosen_)]
+            fragmenter.fragment_model(td / "m", capella_, pathlib.Path(spec0["path"]).name, picks_, aird_style="chain" if n_loads[0] % 4 == 0 else "direct")
+            stats["loads-of-a-fragmented-copy"] += 1
+            return capellambse.MelodyModel(str(td / "m" / pathlib.Path(spec0["path"]).name))
+
         del plan_model
         base_broken = None
         for tid in plan:
             if base_broken is None:
                 base_broken = broken_tokens(corpus.load(spec0)._loader)
             if model is None or done % per_model_reload == 0:
-                model = corpus.load(spec0)
+                model = load_model()
                 A = graph.Abstraction()
                 if done:
                     # states reached by prior edits
@@ -188,7 +212,7 @@ def run(chk: lib.Check):
             # cannot see them; start again from a fresh load
             if broken_tokens(loader) - base_broken:
                 stats["reloaded: earlier steps left unresolvable references"] += 1
-                model = corpus.load(spec0)
+                model = load_model()
                 A = graph.Abstraction()
                 loader = model._loader
             try:
@@ -257,7 +281,23 @@ def run(chk: lib.Check):
                     elif all(members[k_].get("id") for k_ in (i_, j_)):
                         roots_el = [members[i_], members[j_]]
                     stats["deletable-then-refusing-members"] += 1
-            T = [e for r_ in roots_el for e in r_.iter() if isinstance(e.tag, str)]
+            # the deleted subtrees, fragment placeholders followed (what hangs below a placeholder is below the target in the glued tree)
+            frag_root_by_id = {}
+            for p_, t_ in sem_trees(loader):
+                rid = t_.root.get("id")
+                if rid:
+                    frag_root_by_id[rid] = t_.root
+            T, stack_ = [], list(reversed(roots_el))
+            while stack_:
+                cur = stack_.pop()
+                for e in cur.iter():
+                    if not isinstance(e.tag, str):
+                        continue
+                    T.append(e)
+                    if e.get("href"):
+                        fr_ = frag_root_by_id.get(e.get("href").split("#")[-1])
+                        if fr_ is not None:
+                            stack_.append(fr_)
             Tset = {id(e) for e in T}
             tids = {e.get("id") for e in T if e.get("id")}
             # ---- exposure of references, from the implementation's own reference search (C10 checks that search)
@@ -354,6 +394,24 @@ def run(chk: lib.Check):
                     stats[f"raised-unchanged:{entry}:{outcome}"] += 1
                 else:
                     stats["refused-by-physical-link-end"] += 1
+                continue
+            spans = [e for e in T if e.get("href")]
+            if spans:
+                # the target contains fragment placeholders: what hangs below them lives in other files
+                left = []
+                for e in T:
+                    if e.get("id") and not e.get("href"):
+                        try:
+                            loader[e.get("id")]
+                            left.append(e.get("id"))
+                        except KeyError:
+                            pass
+                stats["deletions-of-subtrees-that-span-fragment-files"] += 1
+                if left:
+                    chk.violation("orphaned-fragment-after-delete", f"after deleting {desc}, whose subtree continues in {len(spans)} fragment file(s), {len(left)} of its "
+                                  f"descendants (those stored in the fragment files) are still loaded and found by their UUID, e.g. {left[0]}",
+                                  {"model": spec0["name"], "target": tid, "entry": entry, "still_found": left[:5]})
+                model = None
                 continue
             # ---- model correspondence: removed handles and the references that remain on the watched holders
             removed = [h for h in before if h not in after]
@@ -487,6 +545,8 @@ def run(chk: lib.Check):
                         chk.violation(f"collateral-change:{b[1]}", f"deleting {desc} altered an unrelated <{b[1]}> ({b[2].get('id')})",
                                       {"model": spec0["name"], "target": tid, "entry": entry, "before": str(b)[:300], "after": str(a)[:300]})
         model = None
+        for td in frag_dirs:
+            __import__("shutil").rmtree(td, ignore_errors=True)
     chk.correspond("From V Require Import Model.Delete.", "w_delete", cases, tag="C09_del", shard=1, timeout=900,
                    describe=lambda i: descs[i])
     chk.coverage.update({"outcomes": dict(sorted(stats.items())),
